@@ -7,8 +7,8 @@ Core Lean only.  The VM model is written ONCE, generic in a *memory interface*
 * `valueMem`  (this file):  μ = Unit, ι = byte string.  Items are immutable values.
   This is the reference semantics (C08) — what the opcode documentation describes.
 * `heapMem`   (`Model/VM/Heap.lean`): μ = heap of backing arrays, ι = Go slice header
-  `(array, off, len, cap)`; `append` writes in place when the capacity allows and
-  sub-slices keep the parent's capacity.  This is the code as it is (C06).
+  `(array, off, len, cap)`; sub-slices keep the parent's capacity.  This is the code as it
+  is (C06); since fix a6a6f5b7 no handler appends in place any more.
 
 Gas accounting only looks at item *lengths*, so the C07 theorems are proved once for
 every memory that satisfies the two length laws `MemLaws`, i.e. for both instances.
@@ -89,7 +89,8 @@ structure MemOps (μ ι : Type) where
   read : μ → ι → Bytes
   /-- a freshly allocated array holding `b`, with `extra` bytes of spare capacity -/
   fresh : μ → Bytes → Nat → μ × ι
-  /-- Go `append(x, b...)` -/
+  /-- Go `append(x, b...)` (since fix a6a6f5b7 no opcode handler appends to an item any more;
+      the operation stays in the interface as part of the slice semantics) -/
   append : μ → ι → Bytes → μ × ι
   /-- Go `x[lo:hi]` (callers guarantee `lo ≤ hi ≤ len x`) -/
   slice : ι → Nat → Nat → ι
